@@ -294,7 +294,11 @@ impl std::fmt::Display for PackageListEntry {
             "{} {} {} {}",
             self.package, self.package_type, self.section, self.priority
         )?;
-        for (k, v) in &self.extra {
+        // HashMap iteration order is arbitrary; print the extras in key order so
+        // that the text form of a value is deterministic.
+        let mut extra = self.extra.iter().collect::<Vec<_>>();
+        extra.sort();
+        for (k, v) in extra {
             write!(f, " {}={}", k, v)?;
         }
         Ok(())
